@@ -703,31 +703,52 @@ func inProcess(c *lib.Ctx) {
 		}
 	}
 
-	// O2b adversarial: two hashed variables changed together so that the unframed name=value runs line up
-	for i := 0; i < c.Scale(12, 100); i++ {
+	// O2b adversarial: two hashed variables changed together so that the hashed bytes line up - under the unchanged
+	// framing (name '=' value, the KNOWN finding) and under four other framings a regression could introduce.
+	// A collision is the known class only if the harness's own rendering of the unchanged framing is equal for both callers.
+	for i := 0; i < c.Scale(14, 120); i++ {
 		r := c.Rng.Fork()
-		a, b := "VA", lib.Pick(r, []string{"VB", "VC"})
-		q := lib.Pick(r, []string{"q", "", "zz=1"})
-		c1 := caller{a: "", b: b + "=" + q, "PATH": "/bin"}
-		c2 := caller{a: b + "=", b: q, "PATH": "/bin"}
-		for _, level := range []string{"target", "config"} {
-			cs, ts := cfgSpec{Arch: "amd64", OS: "linux", Location: "/opt/plz"}, tgtSpec{Pkg: "p", Name: "t", Outs: []string{"o"}}
-			if level == "target" {
-				ts.HasPass, ts.PassEnv = true, []string{a, b}
-			} else {
-				cs.PassEnv = []string{b, a} // Hash() sorts the keys
+		a, b := "VA", lib.Pick(r, []string{"VB", "VC"}) // a sorts before b (Configuration.Hash sorts)
+		x, y := lib.Pick(r, []string{"q", "1", "zz", "p:q"}), lib.Pick(r, []string{"2", "w", "", "k9"})
+		type pair struct {
+			shape  string
+			c1, c2 caller
+		}
+		pairs := []pair{
+			{"unchanged-framing", caller{a: "", b: b + "=" + x}, caller{a: b + "=", b: x}},
+			{"separator-dropped", caller{a: x + b + y, b: ""}, caller{a: x, b: y + b}},
+			{"names-dropped", caller{a: x + "=" + y, b: "z"}, caller{a: x, b: y + "=z"}},
+			{"values-only", caller{a: x + y + "m", b: "z"}, caller{a: x, b: y + "mz"}},
+			{"separator-after-value", caller{a: "=" + b, b: ""}, caller{a: "", b: "=" + b}},
+		}
+		// and a random '='-free pair: by C10_framing the unchanged code can never collide on it
+		rv := func() string {
+			return lib.Pick(r, []string{"", "1", "V", "VB", "VC", "1V2", "2V", "x y", "VA", "q"}) + lib.Pick(r, []string{"", "B", "VB", "C", "7"})
+		}
+		pairs = append(pairs, pair{"random-no-equals", caller{a: rv(), b: rv()}, caller{a: rv(), b: rv()}})
+		for _, p := range pairs {
+			p.c1["PATH"], p.c2["PATH"] = "/bin", "/bin"
+			for _, level := range []string{"target", "config"} {
+				cs, ts := cfgSpec{Arch: "amd64", OS: "linux", Location: "/opt/plz"}, tgtSpec{Pkg: "p", Name: "t", Outs: []string{"o"}}
+				if level == "target" {
+					ts.HasPass, ts.PassEnv = true, []string{a, b}
+				} else {
+					cs.PassEnv = []string{b, a} // Hash() sorts the keys
+				}
+				o1, o2 := observe(cs, ts, p.c1, 1), observe(cs, ts, p.c2, 1)
+				c.Oracle()
+				h1, h2 := o1.RuleHash, o2.RuleHash
+				if level == "config" {
+					h1, h2 = o1.CfgHash, o2.CfgHash
+				}
+				c.Hist("collision_shape", p.shape)
+				if bytes.Equal(h1, h2) && !sameMap(o1.BuildEnvs[0], o2.BuildEnvs[0]) {
+					cls, why := classifyCollision([]string{a, b}, p.c1, p.c2)
+					c.Fail(cls, fmt.Sprintf("%s-level pass_env [%s %s]: callers {%s=%q %s=%q} and {%s=%q %s=%q} give different build environments but the same %s hash (%s; pair shape %s)",
+						level, a, b, a, p.c1[a], b, p.c1[b], a, p.c2[a], b, p.c2[b], level, why, p.shape), map[string]any{"cfg": cs, "target": ts, "caller": p.c1, "caller2": p.c2, "shape": p.shape})
+				}
+				emitHashEq(c, cs, ts, p.c1, p.c2, o1, o2)
 			}
-			o1, o2 := observe(cs, ts, c1, 1), observe(cs, ts, c2, 1)
-			c.Oracle()
-			h1, h2 := o1.RuleHash, o2.RuleHash
-			if level == "config" {
-				h1, h2 = o1.CfgHash, o2.CfgHash
-			}
-			if bytes.Equal(h1, h2) && !sameMap(o1.BuildEnvs[0], o2.BuildEnvs[0]) {
-				c.Fail("pass-env-unframed-collision", fmt.Sprintf("%s-level pass_env [%s %s]: callers {%s=%q %s=%q} and {%s=%q %s=%q} give different build environments but the same %s hash (name=value runs are not framed)",
-					level, a, b, a, c1[a], b, c1[b], a, c2[a], b, c2[b], level), map[string]any{"cfg": cs, "target": ts, "caller": c1, "caller2": c2})
-			}
-			emitHashEq(c, cs, ts, c1, c2, o1, o2)
 		}
 	}
 
@@ -751,6 +772,29 @@ func inProcess(c *lib.Ctx) {
 		})
 		c.Case(lib.App("CExpand", coqEnv(fixed), lib.Str(x), lib.Str(out)), caseJS{Kind: "os-expand", Note: x + " -> " + out}, "ex"+x, strings.Contains(x, "$"))
 	}
+}
+
+// unchangedFraming renders what the UNCHANGED code hashes of the given pass_env names under a caller: name, '=', value per
+// variable, in the given order (ruleHash: declaration order; Configuration.Hash: sorted - the caller of this function
+// passes the names in the order that applies). Independent of the implementation and of the Coq model.
+func unchangedFraming(names []string, c map[string]string) string {
+	var b strings.Builder
+	for _, n := range names {
+		b.WriteString(n)
+		b.WriteByte('=')
+		b.WriteString(c[n])
+	}
+	return b.String()
+}
+
+// classifyCollision: two callers with different values for the hashed names got the same hash. It is the known finding
+// only if the unchanged framing really does not separate them.
+func classifyCollision(names []string, c1, c2 map[string]string) (string, string) {
+	if unchangedFraming(names, c1) == unchangedFraming(names, c2) {
+		return "pass-env-unframed-collision", "name=value runs are not framed: the unchanged framing writes the same bytes for both callers"
+	}
+	return "pass-env-collision-separated-by-unchanged-framing", fmt.Sprintf("the unchanged framing name '=' value writes DIFFERENT bytes, %q vs %q, so the hashes must differ",
+		unchangedFraming(names, c1), unchangedFraming(names, c2))
 }
 
 func diffMaps(a, b map[string]string) string {
@@ -871,12 +915,13 @@ func runE2E(r *lib.Rng, base string, idx int, steps int, plzDir string) *e2eHist
 		kind := "initial"
 		expect := map[string]bool{}
 		var changedVar string
+		var collisionBefore map[string]string
 		if si == 0 {
 			for _, l := range allLabels {
 				expect[l] = true
 			}
 		} else {
-			kinds := []string{"unlisted", "unlisted", "target-pass", "target-pass", "clean", "collision"}
+			kinds := []string{"unlisted", "unlisted", "target-pass", "target-pass", "clean", "collision", "collision-nosep"}
 			if len(spec.PassEnv) > 0 {
 				kinds = append(kinds, "cfg-pass", "cfg-pass")
 			}
@@ -961,7 +1006,7 @@ func runE2E(r *lib.Rng, base string, idx int, steps int, plzDir string) *e2eHist
 						expect[l] = true
 					}
 				}
-			case "collision":
+			case "collision", "collision-nosep":
 				// needs a target with two distinct pass_env names, neither covered by the config hash
 				var tgt *e2e.C10Target
 				var a, b string
@@ -975,13 +1020,25 @@ func runE2E(r *lib.Rng, base string, idx int, steps int, plzDir string) *e2eHist
 				if tgt == nil {
 					kind = "noop"
 				} else {
-					// first half: A="", B="B=<tok>"; one build; second half: A="B=", B="<tok>"
 					t := token()
-					tokenOwner[t] = b
-					cl[a], cl[b] = "", b+"="+t
+					if kind == "collision" {
+						// first half: A="", B="B=<tok>"; one build; second half: A="B=", B="<tok>"
+						tokenOwner[t] = b
+						cl[a], cl[b] = "", b+"="+t
+					} else {
+						// a pair the UNCHANGED framing separates; it lines up only if the '=' is not written:
+						// first half: A="<tok>Bw", B=""; second half: A="<tok>", B="wB"
+						tokenOwner[t] = a
+						cl[a], cl[b] = t+b+"w", ""
+					}
+					collisionBefore = copyMap(cl)
 					half := repo.C10Build(spec, copyMap(cl))
 					prev = half.Dumps
-					cl[a], cl[b] = b+"=", t
+					if kind == "collision" {
+						cl[a], cl[b] = b+"=", t
+					} else {
+						cl[a], cl[b] = t, "w"+b
+					}
 					changedVar = a + "," + b
 					for _, t2 := range spec.Targets {
 						if contains(t2.PassEnv, a) || contains(t2.PassEnv, b) {
@@ -1014,8 +1071,9 @@ func runE2E(r *lib.Rng, base string, idx int, steps int, plzDir string) *e2eHist
 			switch {
 			case expect[l] && !got[l]:
 				cls := "no-rebuild-on-pass-env-change"
-				if kind == "collision" {
-					cls = "pass-env-unframed-collision"
+				if kind == "collision" || kind == "collision-nosep" {
+					// known only if the unchanged framing of THIS target's pass_env is the same before and after
+					cls, _ = classifyCollision(spec.Target(l).PassEnv, collisionBefore, cl)
 				} else if kind == "cfg-pass" && strings.HasPrefix(changedVar, "SECRET") {
 					cls = "config-passenv-secret-prefix-not-hashed"
 				}
@@ -1201,6 +1259,7 @@ func endToEnd(c *lib.Ctx) {
 }
 
 func main() {
+	sandboxReexec()
 	lib.Main("C10", func(c *lib.Ctx) {
 		c.Model("From PlzV Require Import Model.C10.", "C10.case", "C10.check")
 		c.Rule("in-process: random (config file read by core.ReadConfigFiles, core.BuildTarget, caller environment) triples - pass_env / pass_unsafe_env at both levels drawn from a pool that " +
@@ -1208,10 +1267,17 @@ func main() {
 			"Configuration.Hash and build.RuleHash under os.Clearenv/Setenv, each compared against a second caller that differs (a) only in unlisted variables, (b) in one unsafe variable, (c) in one hashed variable, " +
 			"(d) in two hashed variables chosen so that unframed name=value runs collide. end to end: real plz on repositories of 2-3 genrules dumping `env | sort`, 7 steps each (unlisted / unsafe / " +
 			"target pass_env / [build] passenv changes, clean rebuilds, collision pairs); every caller value carries a unique token so that leaks are found by value. " +
+			"follow-up streams: (e) pairs of callers that would collide under OTHER framings of the pass_env bytes (separator dropped, names dropped, separator after the value) and random '='-free pairs - " +
+			"a collision counts as the known class only if the two callers' bytes are equal under the UNCHANGED framing name '=' value, computed by the harness; (f) the real Executor.ExecWithTimeout " +
+			"(ExecCommand, os/exec, sandbox.Sandbox via re-exec of this binary) on name=value lists with duplicates / overrides / missing TMP_DIR under two callers, process = /usr/bin/env; " +
+			"(g) real plz with [sandbox] build = true and an empty tool on repositories under /var/tmp, sandboxed and unsandboxed genrules dumping their environment. " +
 			"distinct = distinct (config, target, caller[, caller2]) inputs; non-trivial = at least one listed variable (in-process) or a step after the first that changes the environment (end to end)")
+		userns := haveUserNS()
 		if os.Getenv("C10_SKIP_E2E") == "" {
 			endToEnd(c)
+			endToEndSandbox(c, userns)
 		}
 		inProcess(c)
+		execStream(c, userns)
 	})
 }
